@@ -1410,6 +1410,9 @@ func (w *world) respE2E(wc *wconn, r Resp) {
 			r.Start, o.r.Start, o.start = -1, -1, -1
 		} else {
 			o.ambiguous = true // the statement does not say what the range start of such a response is
+			if r.Start < 0 {
+				r.Start, o.r.Start, o.start = 0, 0, 0
+			}
 		}
 	}
 	target := o.url
